@@ -68,9 +68,9 @@ def step_sizes_of(cfg):
 
 
 @st.composite
-def bar_plan(draw, max_bars=6, allow_default_first=True):
+def bar_plan(draw, max_bars=6, allow_default_first=True, min_bars=1):
     """list of bars [(start, length, (num, den))] and the signature events [["ts", tick, num, den]]"""
-    nbars = draw(st.integers(1, max_bars))
+    nbars = draw(st.integers(min_bars, max_bars))
     explicit = draw(st.booleans()) or not allow_default_first
     cur = draw(st.sampled_from(SIGNATURES)) if explicit else (4, 4)
     events = [["ts", 0, cur[0], cur[1]]] if explicit else []
@@ -88,7 +88,7 @@ def bar_plan(draw, max_bars=6, allow_default_first=True):
 
 
 @st.composite
-def piece(draw, cfg, max_bars=6, max_notes=10, allow_crossing=True, noise=True):
+def piece(draw, cfg, max_bars=6, max_notes=10, allow_crossing=True, noise=True, min_bars=1):
     """A piece that meets exactly the tokeniser's input constraints for cfg:
     {"bars": [[start, length, [num, den]]...], "tracks": [seqspec...], "meta_track": j}
     Track i's notes all carry channel `chan[i]` (arbitrary; tokenise relabels)."""
@@ -96,7 +96,7 @@ def piece(draw, cfg, max_bars=6, max_notes=10, allow_crossing=True, noise=True):
     values = note_values_of(cfg)
     lo, hi = cfg["pitch_range"]
     nt = cfg["num_tracks"]
-    bars, ts_events = draw(bar_plan(max_bars=max_bars))
+    bars, ts_events = draw(bar_plan(max_bars=max_bars, min_bars=min_bars))
     total = bars[-1][0] + bars[-1][1]
     meta_track = draw(st.integers(0, nt - 1))
     pad_mode = draw(st.sampled_from(["none", "grid_tick", "full", "mixed"]))
